@@ -6,6 +6,7 @@ import re
 from typing import Dict, List, Optional, Set, Tuple
 
 from ..core import AnalysisError, RuleSpec
+from . import common
 from ..pymodel import call_name
 from .. import astq
 
@@ -359,10 +360,20 @@ def r5_interface_and_constructor(ctx, rep):
     rep.ob("inherited permission stored lower-case", ok, "", py.nloc(fb))
 
 
+
+def r6_memo(ctx, rep):
+    """a cache on the declaration path must not store anything that depends on the enclosing scope (e.g. the inherited
+    default accessibility) unless the scope is part of the key"""
+    n = common.memo_soundness(ctx, rep, modules=("sourceform", "utils", "reader"))
+    if n == 0:
+        rep.ob("no cache on the declaration path", True, "nothing to check", "ford/sourceform.py", nontrivial=False)
+
+
 RULES = [
     RuleSpec("C04.R1", r1_plumbing, "permission plumbing table", floor=12),
     RuleSpec("C04.R2", r2_declaration_attributes, "declaration access attributes", floor=3),
     RuleSpec("C04.R3", r3_access_statements, "access statements are order independent", floor=7),
     RuleSpec("C04.R4", r4_order_sensitivity, "scope default not read before the specification part is complete", floor=1),
     RuleSpec("C04.R5", r5_interface_and_constructor, "interface procedures and constructors", floor=2),
+    RuleSpec("C04.R6", r6_memo, "caches on the declaration path are keyed by everything the cached value depends on", floor=1),
 ]
